@@ -54,7 +54,7 @@ def trait(*keys):
 
 def install(vm):
     vm.models = MODELS
-    from . import std_iter, std_coll, std_str   # noqa: F401  (register their models)
+    from . import std_iter, std_coll, std_str, std_fmt   # noqa: F401  (register their models)
 
 
 # ------------------------------------------------------------------ helpers
